@@ -45,6 +45,8 @@ class Gen:
         self.cls = {}           # clock id -> class representative (python's belief of the pin source)
         self.fwd_open = []      # (sig, clk)
         self.mems = []
+        self.mem_wclk = {}
+        self.mem_has_read = set()
         self.depth = 0
         self.budget_unmarked = {"clean": 0, "one": 1, "sloppy": 10 ** 9}[flavor]
         self.crossings = 0      # crossing edges requested (marked or not)
@@ -187,7 +189,11 @@ class Gen:
 
     def step_reg(self, t, src=None):
         r = self.r
-        d = self.use(self.pick(t) if src is None else src, t)
+        if src is None:
+            src = self.pick(t)
+            if self.sigs[src] == 'K':                     # a register of a constant is folded away (with everything feeding its enable)
+                src = self.nonconst_local(t)
+        d = self.use(src, t)
         en = "-"
         if r.random() < 0.25:
             en = str(self.use(self.nonconst_local(t), t))
@@ -226,13 +232,18 @@ class Gen:
             self.emit(f"mem {m} 16 {1 if r.random() < 0.5 else 0}")
         m = r.choice(self.mems)
         if r.random() < 0.5:
+            t = self.mem_wclk.setdefault(m, t)           # "All write ports to a memory must have the same clock"
             a = self.use(self.pick(t), t); d = self.use(self.pick(t), t)
             self.emit(f"mwr {m} {t} {a} {d}")
         else:
-            a = self.use(self.pick(t), t)
-            b = self.sigs[a]
-            s = self.new(b if b != 'K' else 'M')
-            self.emit(f"mrd {s} {m} {a}")
+            self.mem_read(m, t)
+
+    def mem_read(self, m, t):
+        a = self.use(self.nonconst_local(t), t)
+        b = self.sigs[a]
+        s = self.new(b if b != 'K' else 'M')
+        self.emit(f"mrd {s} {m} {a}")
+        self.mem_has_read.add(m)
 
     def run(self):
         r = self.r
@@ -270,6 +281,9 @@ class Gen:
                 s = self.new(('C', t)); self.emit(f"clk2sig {s} {t}")
             else:
                 self.step_op(t)
+        for m in self.mems:                              # a memory nobody reads is culled together with its write ports
+            if m not in self.mem_has_read:
+                self.mem_read(m, r.choice(cl))
         while self.fwd_open:
             self.close_fwd(0)
         while self.depth > 0:
@@ -461,7 +475,8 @@ def evaluate(progs, harness, driver, tagdir, timeout=900, with_model=True):
     dumps, berrs = parse_dump(df)
     model = {}
     if with_model:
-        rc, mout = V.run([driver, str(df)], timeout=timeout)
+        # the extracted code is not tail recursive (unary fuel, list append): give it a deep stack
+        rc, mout = V.run(["bash", "-c", 'ulimit -s unlimited 2>/dev/null || ulimit -s 4000000; exec "$0" "$1"', driver, str(df)], timeout=timeout)
         if rc != 0:
             V.infra_error(f"model driver failed rc={rc}\n{mout[-2000:]}")
         for line in mout.splitlines():
